@@ -2,4 +2,5 @@ package main
 
 // registerMore adds the property table entries beyond C01-C05.
 func registerMore(m map[string]propSpec) {
+	m["C13"] = propSpec{Level: "model_checking", Engines: []engine{{Harness: "gen", Overlay: "base", Shards: -1}}}
 }
